@@ -16,7 +16,7 @@ def run_scenario(sc, record_state=True):
     from harness.simdaemon import Sim
     sim = Sim(sc["watchers"], check_delay=sc.get("check_delay", 1.0),
               warmup_delay=sc.get("warmup_delay", 0.0), record_state=record_state,
-              file_mode=bool(sc.get("file_mode", False)))
+              file_mode=bool(sc.get("file_mode", False)), endpoint_owner=sc.get("endpoint_owner"))
     try:
         obeys = list(sc.get("obeys", []))
         stubborn = set(sc.get("stubborn", []))
@@ -94,6 +94,10 @@ def _exec(sim, op):
             i = props.pop("pidany")
             allp = sorted(sim.kernel.procs) + [4242]
             props["pid"] = allp[i % len(allp)]
+        if "childany" in props:
+            i = props.pop("childany")
+            allp = sorted(sim.kernel.procs) + [4242]
+            props["childpid"] = allp[i % len(allp)]
         if "childsel" in props:
             i = props.pop("childsel")
             kids = sorted(c.pid for c in sim.kernel.procs.values()
@@ -178,7 +182,8 @@ def _quiesce(sim, budget, passes):
         else:
             calm = 0
     if sim.check_delay > 0:
-        sim.advance(passes * sim.check_delay + 0.01)
+        # (two check delays more than the passes asked for: a periodic check that is not there at all shows here)
+        sim.advance((passes + 2) * sim.check_delay + 0.15)
     sim.drain()
 
 
@@ -325,7 +330,7 @@ def gen_request(rng, w, p, names):
         if rng.random() < max(0.5, p.get("killover", 0.0)):
             props["graceful_timeout"] = rng.choice([0, 0, 0.1, 0.2, 0.4] if p.get("killover") else [0, 0.1, 0.2, 0.4])
         if rng.random() < 0.4:
-            props["signum"] = rng.choice([SIGINT, "quit", "SIGUSR1", SIGTERM])
+            props["signum"] = rng.choice([SIGINT, "quit", "SIGUSR1", SIGTERM, 0])      # (0: the null signal is a signal)
         if rng.random() < 0.5:
             props["pidsel"] = rng.randint(0, 3)
     elif cmd == "signal":
@@ -342,6 +347,8 @@ def gen_request(rng, w, p, names):
             props["recursive"] = True
         if rng.random() < p.get("childsel", 0.0):
             props["childsel"] = rng.randint(0, 2)       # one child of the addressed worker (needs pid; without: refused)
+        elif rng.random() < p.get("childany", 0.0):
+            props["childany"] = rng.randint(0, 9)       # a "child" that is somebody else's: another worker, a stranger
     elif cmd == "rm":
         props = {"name": name, "waiting": waiting, "nostop": rng.random() < 0.3}
     elif cmd == "quit":
